@@ -161,6 +161,9 @@ func TestCheck(t *testing.T) {
 	deep := n + 3
 	runPairs(stringsOver([]string{"a", "b", "*"}, deep), rep.Add(&report.Section{Name: fmt.Sprintf("match-all-pairs-three-symbols-len%d", deep), Engine: "enum", Exhaustive: true, Extra: map[string]int64{},
 		Rule: "every (pattern, name) with both strings over {a, b, *} up to the length bound (patterns with up to that many wildcards, pieces that recur in the name): acl.Secret.Match vs the DP glob matcher"}))
+	// a fourth alphabet around regexp quoting: backslash with the letters that open and close a quoted run
+	runPairs(stringsOver([]string{"a", "*", "\\", "E", "Q"}, n+1), rep.Add(&report.Section{Name: fmt.Sprintf("match-all-pairs-quoting-len%d", n+1), Engine: "enum", Exhaustive: true, Extra: map[string]int64{},
+		Rule: "every (pattern, name) with both strings over {a, *, backslash, E, Q} up to the length bound: acl.Secret.Match vs the DP glob matcher"}))
 	// rule-set shapes
 	rs := rep.Add(&report.Section{Name: "rule-set-shapes", Engine: "enum", Exhaustive: true, Extra: map[string]int64{},
 		Rule: "every rule set of 0-2 rules, each with 0-2 actions from {get, put} and 0-2 patterns from {a*, *b, a/b, a, b, a<newline>b}, × action {get, put, info} × names, evaluated in one process in forward and then in reverse order: Rules.Allow vs the reference; empty set allows nothing; monotone under adding a rule; no panic; non-trivial = evaluations the reference allows"})
